@@ -1,5 +1,6 @@
 (** extraction entry point for the C32 / C03 correspondence checks and judges *)
 From Coq Require Import ZArith List Bool Arith.
+(* the model runner builds exactly the files named here: ErgV.Common.Sx ErgV.Pred.Model ErgV.Pred.Spec *)
 From ErgV Require Import Common.Sx Pred.Model Pred.Spec.
 Import ListNotations.
 Open Scope Z_scope.
@@ -35,7 +36,11 @@ Fixpoint dec_pred (x : sx) : pred :=
     else if k =? 2 then PNe (dec_cst a1)
     else if k =? 3 then PGe (dec_cst a1)
     else if k =? 4 then PLe (dec_cst a1)
-    else if k =? 5 then POr ((fix go (l : list sx) : list pred := match l with [] => [] | y :: t => dec_pred y :: go t end) (tl l))
+    else if k =? 5 then
+      match l with
+      | _ :: rest => POr ((fix go (l : list sx) : list pred := match l with [] => [] | y :: t => dec_pred y :: go t end) rest)
+      | [] => PVal false
+      end
     else if k =? 6 then
       (* And: two sub-terms *)
       match l with
